@@ -193,6 +193,7 @@ func GenConfig(t *rapid.T, o GenOpts) *Config {
 		cfg.Silent = cfg.Silent[1:]
 		cfg.Honest = append(cfg.Honest, d)
 		cfg.Divergent = append(cfg.Divergent, d)
+		cfg.DivergentSupp = rapid.Bool().Draw(t, "divergentsupp")
 	}
 	// instances
 	ninst := rapid.IntRange(1, o.MaxInstances).Draw(t, "ninst")
